@@ -7,6 +7,8 @@ A *spec* is a dict
                                   labels are arbitrary: offset, with gaps or not ascending
     G       float | list          relative stress gradient (list: one value per point, passed as a Series)
     params  dict                  overrides of BASE_PARAMS (value None removes the key)
+    want    None | list           which damage parameters the call computes: ['ram'], ['raj'] or both (default; calculate_P_RAM /
+                                  calculate_P_RAJ of perform_fkm_nonlinear_assessment)
 The summary holds, per point, the observables of the property (lifetimes, infinite-life verdicts, N_10/50/90) and the
 stage outputs on which the contracts of coq/theories/Assess/Pipeline.v are checked (hysteresis table, damage parameters,
 per-hysteresis damage, curve parameters, shared maxima, look-up tables).
@@ -105,9 +107,10 @@ def _tables(out, tag, r, n):
     out[tag + '_nbins'] = int(nb)
 
 
-def assess(spec, want=('ram', 'raj')):
+def assess(spec, want=None):
     """One call of perform_fkm_nonlinear_assessment.  Returns the summary dict or {'error': ...}."""
     import pylife.strength.fkm_nonlinear.assessment_nonlinear_standard as A
+    want = tuple(want or spec.get('want') or ('ram', 'raj'))
     seq, ratios = spec['seq'], spec.get('ratios')
     n = 1 if ratios is None else len(ratios)
     p = make_params(spec.get('params'), spec.get('G', BASE_PARAMS['G']))
